@@ -198,9 +198,11 @@ def e2_scenarios(tier):
   alive = dict(scripts=(("start", "is_alive"), ("start",)), pool=3)
   three = dict(scripts=(("start",), ("start",), ("start",)), pool=4)
   startstop = dict(scripts=(("start", "stop"),), pool=2)        # one caller: start(), then stop() against the two delivery threads it made
+  # ... and with a publication still waiting in the fifo queue when stop() is called (the delivery thread is busy, not asleep)
+  busy = dict(scripts=(("start", "stop"),), pool=2, queued=(1, 0))
   if tier == "quick":
-    return [(two, 30), (startstop, 26)]
-  return [(two, 30), (startstop, 30), (alive, 40), (three, 40)]
+    return [(two, 30), (startstop, 26), (busy, 30)]
+  return [(two, 30), (startstop, 30), (busy, 34), (dict(scripts=(("start", "stop"),), pool=2, queued=(1, 1)), 36), (alive, 40), (three, 40)]
 
 
 def e2_specs(tier):
